@@ -1074,14 +1074,23 @@ impl C16 {
                                     if trains.len() != cf.len() {
                                         rep.fail("fold-count", opname, format!("{}: {} models fitted for {} folds of the splitter", ctx, trains.len(), cf.len()));
                                     }
-                                    for (fi, (ctr, cte)) in cf.iter().enumerate().take(trains.len()) {
-                                        if &trains[fi] != ctr {
-                                            rep.fail("train-not-splitter-train", opname, format!("{}: fold {}: the splitter handed out training rows {:?} but the model was fitted on {:?}", ctx, fi, clip(ctr), clip(&trains[fi])));
-                                            break;
-                                        }
-                                        if &tests[fi] != cte {
-                                            rep.fail("test-not-splitter-test", opname, format!("{}: fold {}: the splitter handed out test rows {:?} but the model predicted {:?}", ctx, fi, clip(cte), clip(&tests[fi])));
-                                            break;
+                                    // every fold of the splitter is used by exactly one model, verbatim (train list and test list as
+                                    // handed out); in which order the folds are visited is not stated by the property
+                                    let mut used = vec![false; trains.len()];
+                                    for (fi, (ctr, cte)) in cf.iter().enumerate() {
+                                        match (0..trains.len()).find(|m| !used[*m] && &trains[*m] == ctr && &tests[*m] == cte) {
+                                            Some(m) => used[m] = true,
+                                            None => {
+                                                // say what is wrong with the closest candidate: a model with this fold's test rows but other training rows, or the reverse
+                                                if let Some(m) = (0..trains.len()).find(|m| !used[*m] && &tests[*m] == cte) {
+                                                    rep.fail("train-not-splitter-train", opname, format!("{}: fold {}: the splitter handed out training rows {:?} but the model that predicted its test rows was fitted on {:?}", ctx, fi, clip(ctr), clip(&trains[m])));
+                                                } else if let Some(m) = (0..trains.len()).find(|m| !used[*m] && &trains[*m] == ctr) {
+                                                    rep.fail("test-not-splitter-test", opname, format!("{}: fold {}: the splitter handed out test rows {:?} but the model fitted on its training rows predicted {:?}", ctx, fi, clip(cte), clip(&tests[m])));
+                                                } else {
+                                                    rep.fail("train-not-splitter-train", opname, format!("{}: fold {} of the splitter (training rows {:?}, test rows {:?}) was used by no model", ctx, fi, clip(ctr), clip(cte)));
+                                                }
+                                                break;
+                                            }
                                         }
                                     }
                                 } else if let Err((c, m)) = check_folds(n, k, case.shuffle, &trains, &tests) {
